@@ -15,7 +15,7 @@
   state: `cloop_value` in `Props/C11.lean`) the same holds: `val_substCLoop`, `fire_substCLoop`.
 
   Both are instances of one development for `Def.substWith fs fc` (apply `fs` to stream operands and
-  `fc` to cell operands), all 29 constructors.
+  `fc` to cell operands), all 30 constructors.
 -/
 import SodiumVerif.Lemmas.SpecUnique
 import SodiumVerif.Lemmas.SpecCell
@@ -47,6 +47,7 @@ def Def.substWith (fs fc : Nat → Nat) : Def → Def
   | .snapshotn s cs => .snapshotn (fs s) (cs.map fc)
   | .gate s c => .gate (fs s) (fc c)
   | .hold s k => .hold (fs s) k
+  | .holdz s c => .holdz (fs s) (fc c)
   | .once s => .once (fs s)
   | .updates c => .updates (fc c)
   | .value c => .value (fc c)
@@ -220,6 +221,9 @@ theorem fireOf_substLoopWith (ev : Events) (look : Nat → Option (Option Int))
     | hold s k =>
       rw [hd, Def.substWith] at hd'
       rw [fireOf_hold _ _ _ _ hd, fireOf_hold _ _ _ _ hd', hs]
+    | holdz s c =>
+      rw [hd, Def.substWith] at hd'
+      rw [fireOf_holdz _ _ _ _ hd, fireOf_holdz _ _ _ _ hd', hs]
     | once s =>
       rw [hd, Def.substWith] at hd'
       rw [fireOf_once _ _ _ _ hd, fireOf_once _ _ _ _ hd', hs, substLoopWith_onceDone]
@@ -369,6 +373,9 @@ theorem operands_substWith {sp'' : Spec} {fs' fc' : Nat → Nat} {i : Nat}
   | mapc c k =>
     rw [hd, Def.substWith] at hd'; simp only [operands, hd', List.mem_singleton] at h
     exact ⟨c, by simp [operands, hd], Or.inr (Or.inr h)⟩
+  | holdz s c =>
+    rw [hd, Def.substWith] at hd'; simp only [operands, hd', List.mem_singleton] at h
+    exact ⟨s, by simp [operands, hd], Or.inr (Or.inl h)⟩
   | merge a b op =>
     rw [hd, Def.substWith] at hd'
     simp only [operands, hd', List.mem_cons, List.not_mem_nil, or_false] at h
@@ -464,12 +471,19 @@ theorem cellVal_substLoopWith {rank : Nat → Nat} (wr : WellRanked sp rank)
       intro c hc
       have h1 := wr.dec i hi c hc
       exact ih c h1.1 (by omega)
+    have hvop : ∀ c, c ∈ valDeps sp i → cellVal (sp.substLoopWith fs fc l) f (fc' c) = sp.val c := by
+      intro c hc
+      have h1 := wr.vdec i hi c hc
+      have h2 := hgc c h1.1
+      rw [ih (fc' c) h2.1 (by omega), hvc' c]
     rw [cellVal_succ, val_eq wr i, substLoopWith_stored, substLoopWith_loopTo, hd']
     cases hs : sp.stored.get i with
     | some v => rfl
     | none =>
       simp only []
       cases hd : sp.getDef i with
+      | holdz s c =>
+        simp only [Def.substWith]; rw [hvop c (by simp [valDeps, hd])]
       | mapc c k =>
         simp only [Def.substWith]; rw [hop c (by simp [operands, hd])]
       | lift2 a b op =>
@@ -534,6 +548,20 @@ theorem WellRanked.substLoopWith {rank : Nat → Nat} (wr : WellRanked sp rank)
     · exact h1
     · have := hgs x h1.1; exact ⟨this.1, by omega⟩
     · have := hgc x h1.1; exact ⟨this.1, by omega⟩
+  · intro i hi j' hj'
+    rw [substLoopWith_size] at hi ⊢
+    obtain ⟨fs', fc', _, hgc, _, _, _, hd'⟩ := getDef_substLoopWith_cases (l := l) hfs hfc hvc i
+    unfold valDeps at hj'
+    rw [hd'] at hj'
+    cases hd : sp.getDef i with
+    | holdz s c =>
+      rw [hd] at hj'
+      simp only [Def.substWith, List.mem_singleton] at hj'
+      subst hj'
+      have h1 := wr.vdec i hi c (by simp [valDeps, hd])
+      have := hgc c h1.1
+      exact ⟨this.1, by omega⟩
+    | _ => rw [hd] at hj'; simp [Def.substWith] at hj'
 
 /-- **substitution, general form**: if in the firing table of `sp` the entries of `fs x` / `fc x` are
     those of `x`, and cell values do not see `fc`, then the substituted program has the same table -/
@@ -601,7 +629,7 @@ theorem storedUpd_substLoopWith (wr : WellRanked sp rank)
       = storedUpd sp (fireTable sp ev) i := by
   have hf := fire_substLoopWith (l := l) wr hfs hfc hvc ev hs hc
   have hv := val_substLoopWith (l := l) wr hfs hfc hvc
-  obtain ⟨fs', fc', _, _, _, hfs', _, hd'⟩ := getDef_substLoopWith_cases (l := l) hfs hfc hvc i
+  obtain ⟨fs', fc', _, _, hvc', hfs', _, hd'⟩ := getDef_substLoopWith_cases (l := l) hfs hfc hvc i
   have hs' : ∀ x, fire (fireTable sp ev) (fs' x) = fire (fireTable sp ev) x := by
     intro x; unfold fire
     rcases hfs' with rfl | rfl
@@ -611,6 +639,7 @@ theorem storedUpd_substLoopWith (wr : WellRanked sp rank)
   rw [hd']
   cases hd : sp.getDef i with
   | collect s k op => simp only [Def.substWith]; rw [hf, hs', hv]
+  | holdz s c => simp only [Def.substWith]; rw [hf i, substLoopWith_stored, hv (fc' c), hvc' c]
   | _ => simp only [Def.substWith, Def.isCell, hf i] <;> try rfl
 
 theorem onceUpd_substLoopWith (wr : WellRanked sp rank)
@@ -891,7 +920,7 @@ def demo11Rank : Nat → Nat
   | _ => 4
 
 set_option maxRecDepth 8192 in
-theorem demo11_ranked : StaticRanked demo11 demo11Rank := ⟨by decide, by decide⟩
+theorem demo11_ranked : StaticRanked demo11 demo11Rank := ⟨by decide, by decide, by decide⟩
 
 /-- the substituted program, written out: every use of `1` reads `4`; the loop itself stays -/
 example : (demo11.substLoop 1 4).defs =
@@ -935,7 +964,7 @@ def demo11cRank : Nat → Nat
   | _ => 5
 
 set_option maxRecDepth 8192 in
-theorem demo11c_wf : WellFormed demo11c demo11cRank := ⟨⟨by decide, by decide⟩, by decide, by decide⟩
+theorem demo11c_wf : WellFormed demo11c demo11cRank := ⟨⟨by decide, by decide, by decide⟩, by decide, by decide⟩
 
 theorem demo11c_init (j : Nat) : demo11c.stored.get j = none := Store.get_empty j
 
